@@ -90,8 +90,11 @@ def main():
         # are handled like Python handles them
         # The file name is kept as it was given (pathlib would turn ./a.py into a.py)
         code = compile(pathlib.Path(file).read_bytes(), file, "exec")
-        with tokenize.open(file) as source_file:
-            source = source_file.read()
+        source = None
+        # Only decode the text when it is shown, which is stricter than compiling it
+        if show_source:
+            with tokenize.open(file) as source_file:
+                source = source_file.read()
     elif cmd is not None:
         # replace escaped newlines with newlines
         source = cmd.replace("\\n", "\n")
@@ -101,7 +104,9 @@ def main():
         assert spec
         assert spec.loader
         code = spec.loader.get_code(mod)  # type: ignore
-        source = spec.loader.get_source(mod)  # type: ignore
+        source = None
+        if show_source:
+            source = spec.loader.get_source(mod)  # type: ignore
         assert code
 
     if show_source and source is not None:
